@@ -13,7 +13,7 @@ for c in $list; do
   git -C /repo worktree remove --force "$R" 2>/dev/null
   git -C /repo worktree add -q --detach "$R" HEAD || exit 2
   if ! git -C "$R" apply "/verif/mutants/revert-$c.diff"; then echo "$c $prop patch-does-not-apply"; rc=1; git -C /repo worktree remove --force "$R"; continue; fi
-  out=$(VERIF_REPO="$R" timeout 3000 bin/check $prop --no-evidence 2>&1 | grep -E '^(VIOLATION|OK|INCONCLUSIVE)' | head -3)
+  out=$(VERIF_REPO="$R" timeout 3000 bin/check $prop --no-evidence 2>&1 | grep -E '^(VIOLATION|OK|INCONCLUSIVE)')
   if echo "$out" | grep -q '^VIOLATION'; then echo "$c $prop caught: $(echo "$out" | grep -m1 '^VIOLATION' | cut -c1-160)"; else echo "$c $prop MISSED: $(echo "$out" | head -1 | cut -c1-160)"; rc=1; fi
   git -C /repo worktree remove --force "$R"
 done
